@@ -57,6 +57,8 @@ theorem fExists_keeps (w0 p) : Keeps w0 (fExists p) := by
   unfold Keeps Holds; mvcgen [fExists, getW]
 theorem fIsSymlink_keeps (w0 p) : Keeps w0 (fIsSymlink p) := by
   unfold Keeps Holds; mvcgen [fIsSymlink, getW]
+theorem holdsOnlyOwnFiles_keeps (w0 cfg l) : Keeps w0 (holdsOnlyOwnFiles cfg l) := by
+  unfold Keeps Holds; mvcgen [holdsOnlyOwnFiles, getW]
 
 theorem testName_keeps (w0 d t) : Keeps w0 (testName d t) := by
   unfold Keeps Holds testName
@@ -131,7 +133,8 @@ theorem removeLayerExportLinks_keeps (w0 cfg l) : Keeps w0 (removeLayerExportLin
 theorem removeLayer_keeps (w0 cfg d n f) : Keeps w0 (removeLayer cfg d n f) := by
   unfold Keeps Holds
   mvcgen [removeLayer, testName_keeps, getL_keeps, errorIfError_keeps, errorIfBusy_keeps, fail,
-          removeLayerExportLinks_keeps, fsRemove_keeps, fExists_keeps, fsRename_keeps, reorder_keeps]
+          removeLayerExportLinks_keeps, fsRemove_keeps, fExists_keeps, fsRename_keeps, reorder_keeps,
+          holdsOnlyOwnFiles_keeps]
   all_goals pinv_done
 
 theorem renameLayer_keeps (w0 cfg d o n co) : Keeps w0 (renameLayer cfg d o n co) := by
